@@ -21,8 +21,11 @@ def name(r, n=None):
     alphabet = 'abcdefghijklmnopqrstuvwxyzABCDEFGHIJKLMNOPQRSTUVWXYZ0123456789 .,-_/()\'+#:!?*[]{}\\^$|&%@=<>~;`'
     k = n if n is not None else r.randint(1, 12)
     s = ''.join(r.choice(alphabet) for _ in range(k))
-    if r.random() < 0.15:
+    u = r.random()
+    if u < 0.15:
         s += r.choice(['é', 'ß', '日本', 'Ω'])
+    elif u < 0.35:       # runs of blanks, a tab, leading / trailing blanks are part of a name
+        s = r.choice([s[:k // 2] + '  ' + s[k // 2:], s + '   x', ' ' + s, s + ' ', s + '\t' + s[:2], '  '])
     return s
 
 
